@@ -1078,7 +1078,10 @@ class Interp:
         if isinstance(t, ast.Name):
             frame.locals[t.id] = v
         elif isinstance(t, (ast.Tuple, ast.List)):
-            vals = self.iterate(v)
+            if hasattr(v, "sv_unpack") and not any(isinstance(e, ast.Starred) for e in t.elts):
+                vals = v.sv_unpack(self, len(t.elts))
+            else:
+                vals = self.iterate(v)
             star = [i for i, e in enumerate(t.elts) if isinstance(e, ast.Starred)]
             if star:
                 i = star[0]
@@ -1504,6 +1507,9 @@ class Interp:
 
     def is_(self, a, b):
         if a is None or b is None:
+            o = b if a is None else a
+            if o is not None and hasattr(o, "sv_is_none"):
+                return o.sv_is_none(self)
             return a is b
         if isinstance(a, bool) and isinstance(b, bool):
             return a == b
